@@ -363,6 +363,15 @@ def lexseq_family(limit=None, rng_seed=4760):
     return out
 
 
+# cyclic grammars whose left-recursive START symbol has an all-nullable tail: ACCEPT competes with an EMPTY reduction on STOP
+# (round-4 seeded change C04-h dropped that reduction: a deterministic table for an infinitely ambiguous grammar)
+ACCEPT_VS_EMPTY = [
+    {"prods": [("S", ("S", "A")), ("S", ("a",)), ("A", ())], "terms": [("a", "str", "a")]},
+    {"prods": [("S", ("S", "A", "B")), ("S", ("a", "b")), ("A", ()), ("B", ())], "terms": [("a", "str", "a"), ("b", "str", "b")]},
+    {"prods": [("S", ("S", "A")), ("S", ("a",)), ("A", ("B",)), ("B", ())], "terms": [("a", "str", "a")]},
+]
+
+
 # D1 at its worst (known finding C01-KF1): the sentence is REJECTED, every derivation needs a path through a GSS node visited twice
 REJECT_WITNESSES = [
     {"prods": [("S", ("t", "A", "S")), ("S", ("A", "A")), ("A", ("S",)), ("A", ())], "terms": [("t", "str", "t")]},
